@@ -26,7 +26,16 @@ def serGeneric {S : Type} {F : Type} [Codec F] (ops : AccOps S) (enc : S → Tre
     run := fun _ _ =>
       { model := joinBar [[Tok.s (renderTree (enc fin.st))], [.s "T", .s "toml:T", .s "T", .s "T"]] } }
 
+/-- `sertoml F kind history => toml:T T`: a state with a non-finite register survives the TOML round trip
+    (equal, same query results); the expected flags do not depend on the state -/
+def serTomlOp : Option OpEval :=
+  some { run := fun _ impl =>
+    let want := ["toml:T", "T"]
+    { model := want.map Tok.s,
+      prop := if impl == [want] then [] else ["non-finite-state-does-not-survive-the-TOML-round-trip"] } }
+
 def serOps (op ty : String) (args : List String) : Option OpEval :=
+  if op == "sertoml" then serTomlOp else
   match op with
   | "ser" =>
     match args with
